@@ -39,7 +39,7 @@ func c01send(c *h.Ctx, cs *h.Case) {
 	c01sendOnce.Do(func() { c01sendCl = fix.NewCluster(9, false) })
 	cl := c01sendCl
 	if len(cs.Ops) > 0 {
-		if tk := strings.Fields(cs.Ops[0]); len(tk) == 5 && strings.Count(tk[2], ",")+1 > 9 {
+		if tk := strings.Fields(cs.Ops[0]); len(tk) >= 5 && strings.Count(tk[2], ",")+1 > 9 {
 			if strings.Count(tk[2], ",")+1 > c01sendWide {
 				cs.Impl = append(cs.Impl, "bad-op")
 				return
@@ -111,15 +111,49 @@ func c01send(c *h.Ctx, cs *h.Case) {
 	}
 	for _, op := range cs.Ops {
 		tk := strings.Fields(op)
-		if len(tk) != 5 || tk[1] != "send" {
+		// `sendx … <ok|closing|nil:k,…>`: the same operations with failing calls — the instance has declared itself
+		// done (every SendTo answers "is closing"), or the destinations at these positions are nil nodes (Multicast,
+		// SendTo); the observation adds the number of errors the operation returns
+		isX := len(tk) == 6 && tk[1] == "sendx"
+		if !isX && (len(tk) != 5 || tk[1] != "send") {
 			cs.Impl = append(cs.Impl, "bad-op")
 			continue
+		}
+		closing := false
+		nilAt := map[int]bool{}
+		if isX {
+			switch {
+			case tk[5] == "ok":
+			case tk[5] == "closing":
+				closing = true
+			case strings.HasPrefix(tk[5], "nil:") && (strings.HasPrefix(tk[4], "multi:") || strings.HasPrefix(tk[4], "to:")):
+				badNil := false
+				for _, x := range strings.Split(tk[5][4:], ",") {
+					k, err := strconv.Atoi(x)
+					if err != nil || k < 0 {
+						badNil = true
+						break
+					}
+					nilAt[k] = true
+				}
+				if badNil {
+					cs.Impl = append(cs.Impl, "bad-op")
+					continue
+				}
+			default:
+				cs.Impl = append(cs.Impl, "bad-op")
+				continue
+			}
 		}
 		if tree == nil && !setup(tk[2]) {
 			cs.Impl = append(cs.Impl, "setup-failed")
 			return
 		}
 		me, _ := strconv.Atoi(tk[3])
+		if closing {
+			recs[me].Tni.Done()
+			c.Count("sendx: closing instance")
+		}
 		val++
 		v := val
 		msg := &fix.M3{V: v}
@@ -159,7 +193,11 @@ func c01send(c *h.Ctx, cs *h.Case) {
 		case strings.HasPrefix(tk[4], "to:"):
 			j, _ := strconv.Atoi(tk[4][3:])
 			want = append(want, j)
-			if e := recs[me].Tni.SendTo(nodes[j], msg); e != nil {
+			to := nodes[j]
+			if nilAt[0] {
+				to = nil
+			}
+			if e := recs[me].Tni.SendTo(to, msg); e != nil {
 				errs = append(errs, e)
 			}
 		case strings.HasPrefix(tk[4], "multi:"):
@@ -167,12 +205,41 @@ func c01send(c *h.Ctx, cs *h.Case) {
 			for _, x := range strings.Split(tk[4][6:], ",") {
 				j, _ := strconv.Atoi(x)
 				want = append(want, j)
-				ns = append(ns, nodes[j])
+				if nilAt[len(ns)] {
+					ns = append(ns, nil)
+				} else {
+					ns = append(ns, nodes[j])
+				}
 			}
 			errs = recs[me].Tni.Multicast(msg, ns...)
 		}
-		for _, e := range errs {
-			cs.Fail("send-error", e.Error())
+		wantErrs := 0
+		if isX {
+			// what the operations document: the collecting ones (Broadcast, Multicast, SendToChildrenInParallel) go
+			// through every destination and return one error per failed one; the others return at the first error
+			collecting := tk[4] == "childrenpar" || tk[4] == "bcast" || strings.HasPrefix(tk[4], "multi:")
+			var reach []int
+			for k, j := range want {
+				if closing || nilAt[k] {
+					wantErrs++
+					if !collecting {
+						break
+					}
+					continue
+				}
+				reach = append(reach, j)
+			}
+			want = reach
+			if len(errs) != wantErrs {
+				cs.Fail("wrong-error-count", fmt.Sprintf("%q: the operation returns %d error(s) %v; %d of its calls fail", op, len(errs), errs, wantErrs))
+			}
+			if len(nilAt) > 0 {
+				c.Count("sendx: nil destinations")
+			}
+		} else {
+			for _, e := range errs {
+				cs.Fail("send-error", e.Error())
+			}
 		}
 		// collect who handled v
 		got := []int{}
@@ -196,7 +263,11 @@ func c01send(c *h.Ctx, cs *h.Case) {
 		collect()
 		sort.Ints(got)
 		sort.Ints(want)
-		cs.Impl = append(cs.Impl, h.Ints(got))
+		if isX {
+			cs.Impl = append(cs.Impl, fmt.Sprintf("%s errs=%d", h.Ints(got), len(errs)))
+		} else {
+			cs.Impl = append(cs.Impl, h.Ints(got))
+		}
 		if h.Ints(got) != h.Ints(want) {
 			cs.Fail("wrong-destinations", fmt.Sprintf("%q: handled by nodes %s, the operation addresses %s", op, h.Ints(got), h.Ints(want)))
 		}
@@ -268,7 +339,38 @@ func c01sendGen(c *h.Ctx, yield func(*h.Case)) {
 					pat = "multi:" + strings.Join(js, ",")
 				}
 			}
-			cs.Ops = append(cs.Ops, fmt.Sprintf("c01 send %s %d %s", ps, me, pat))
+			switch {
+			case strings.HasPrefix(pat, "multi:") && r.Intn(2) == 0:
+				// some of the nodes handed to Multicast are nil: one error each, the others get the message
+				n := strings.Count(pat, ",") + 1
+				var ks []string
+				for x := 0; x < n; x++ {
+					if r.Intn(3) == 0 {
+						ks = append(ks, strconv.Itoa(x))
+					}
+				}
+				flt := "ok"
+				if len(ks) > 0 {
+					flt = "nil:" + strings.Join(ks, ",")
+				}
+				cs.Ops = append(cs.Ops, fmt.Sprintf("c01 sendx %s %d %s %s", ps, me, pat, flt))
+			case strings.HasPrefix(pat, "to:") && r.Intn(4) == 0:
+				cs.Ops = append(cs.Ops, fmt.Sprintf("c01 sendx %s %d %s nil:0", ps, me, pat))
+			case r.Intn(5) == 0:
+				cs.Ops = append(cs.Ops, fmt.Sprintf("c01 sendx %s %d %s ok", ps, me, pat))
+			default:
+				cs.Ops = append(cs.Ops, fmt.Sprintf("c01 send %s %d %s", ps, me, pat))
+			}
+		}
+		if r.Intn(2) == 0 {
+			// at the end of the case one instance declares itself done and goes on sending: nothing leaves, every call
+			// is an error (one per destination for the collecting operations, one for the others)
+			me := r.Intn(k)
+			for _, pat := range []string{"bcast", "children", "childrenpar", "parent", "multi:0," + strconv.Itoa(k-1)} {
+				if r.Intn(3) > 0 {
+					cs.Ops = append(cs.Ops, fmt.Sprintf("c01 sendx %s %d %s closing", ps, me, pat))
+				}
+			}
 		}
 		c.Count("class=send")
 		yield(cs)
